@@ -195,6 +195,34 @@ theorem gen_find_multi_eq_model (h : Heap) (t : Tree) (k : Int) (c fuel : Nat) (
   rw [this, findMPtr_spec]
   cases (Tree.findMIdx k t).bind (fun j => (ids t)[j]?) <;> simp [encPtr]
 
+/-- **`MultiMap::count`** of the current MultiMap.hpp (`find`, then the walk over `next` while the keys are equal, with the
+    sentinel test in front of the key comparison) returns what the model's `count` step returns — `countWalk` over the
+    entries behind the one `find` returned — with exactly the model's number of key comparisons. -/
+theorem gen_count_eq_model (h : Heap) (t : Tree) (k : Int) (c fuel first : Nat) (hr : Repr h h.root 0 t)
+    (hl : NextRepr h first t.inorder) (hf : t.height < fuel) (hf2 : t.size < fuel) :
+    Multi.count fuel h c k = some (match Tree.findMIdx k t with
+      | none => (0, c + Tree.findMCmps k t)
+      | some p => ((countWalk k (t.inorder.drop (p + 1))).1 + 1,
+                   c + Tree.findMCmps k t + (countWalk k (t.inorder.drop (p + 1))).2)) := by
+  unfold Multi.count
+  rw [gen_find_multi_eq_model h t k c fuel hr hf]
+  simp only []
+  cases hfi : Tree.findMIdx k t with
+  | none => simp
+  | some p =>
+    have hb : p < t.size := by
+      rcases findMLoop_bound k t none 0 p hfi with e | e
+      · simp at e
+      · omega
+    rw [size_eq_length] at hb
+    have hi : (ids t)[p]? = some (t.inorder[p]).1 := by
+      simp [ids, List.getElem?_map, List.getElem?_eq_getElem hb]
+    obtain ⟨n1, n2⟩ := nextRepr_drop h t.inorder first p (t.inorder[p]) hl (List.getElem?_eq_getElem hb)
+    simp only [Option.bind_some, hi, n1, if_false]
+    rw [count_loop_eq h k _ _ _ 1 fuel _ n2 (by rw [List.length_drop, ← size_eq_length]; omega)]
+    simp only [Option.some.injEq, Prod.mk.injEq]
+    exact ⟨Nat.add_comm _ _, trivial⟩
+
 theorem multi_insertLoop : ∀ (fuel : Nat) (h : Heap) (p old : Nat),
     Multi.insertRebalance_loop fuel h p old = Map.insertRebalance_loop fuel h p old := by
   intro fuel
@@ -361,6 +389,15 @@ example : ((code false).rebal sampleHeap 1).2 = 2 ∧ ((code true).rebal sampleH
     ((code false).rebal sampleHeap 1).1.parent 1 = 2 ∧ ((code false).rebal sampleHeap 1).1.height 1 = 1 ∧
     ((code false).rebal sampleHeap 1).1.height 2 = 2 ∧ ((code false).rebal sampleHeap 1).1.slope 2 = 0 := by
   decide
+/-- the translated `find` of both headers on the sample heap: key 3 is item 1 (pointer 2) after `>`,`<` at the root and
+    `>`,`<` at item 1 — 4 comparisons; key 4 is not there: `_end` (pointer 99) after 3 comparisons; two units of fuel are not enough -/
+example : Map.find 4 sampleHeap 0 3 = some (2, 4) ∧ Map.find 4 sampleHeap 0 4 = some (99, 3) ∧
+    Multi.find 4 sampleHeap 0 3 = some (2, 5) ∧ Map.find 2 sampleHeap 0 4 = none := by decide
+example : Repr sampleHeap sampleHeap.root 0 sampleTree ∧ sampleTree.height < 4 ∧ Tree.findCmps 3 sampleTree = 4 := by
+  refine ⟨by simp [Repr, sampleTree, sampleHeap], by decide, by decide⟩
+/-- the sample heap threads its three items 1 → 3 → 5 to the sentinel; `count` of the translated MultiMap code -/
+example : NextRepr sampleHeap 3 sampleTree.inorder := by simp [NextRepr, sampleTree, sampleHeap]
+example : Multi.count 5 sampleHeap 0 3 = some (1, 6) := by decide
 example : Tree.rebal sampleTree = node 1 3 30 2 0 (node 2 1 10 1 0 nil nil) (node 0 5 50 1 0 nil nil) := by decide
 
 end Nstd.Avl
